@@ -34,6 +34,7 @@ type JNode struct {
 	arr  []*JNode
 	keys []*StrV
 	vals []*JNode
+	cnds []*Term // per key: nil = always present, otherwise the presence condition (omitempty on a symbolic scalar)
 	// lazy / open-object support (untrusted input)
 	lz      *lazyCfg
 	depth   int
@@ -54,6 +55,19 @@ type lazyCfg struct {
 
 func jStrC(s string) *JNode { return &JNode{kind: jStr, s: ConcStr(s)} }
 
+func (n *JNode) addKey(k *StrV, v *JNode, c *Term) {
+	n.keys = append(n.keys, k)
+	n.vals = append(n.vals, v)
+	n.cnds = append(n.cnds, c)
+}
+
+func (n *JNode) cond(i int) *Term {
+	if i < len(n.cnds) && n.cnds[i] != nil {
+		return n.cnds[i]
+	}
+	return tTrue
+}
+
 func (n *JNode) collectTerms(out *[]*Term) {
 	switch n.kind {
 	case jBool:
@@ -71,6 +85,9 @@ func (n *JNode) collectTerms(out *[]*Term) {
 		for i := range n.keys {
 			*out = append(*out, n.keys[i].n)
 			*out = append(*out, n.keys[i].b...)
+			if c := n.cond(i); !c.IsConst() {
+				*out = append(*out, c)
+			}
 			n.vals[i].collectTerms(out)
 		}
 	}
@@ -131,6 +148,9 @@ func (n *JNode) render(get func(*Term) uint64) string {
 	case jObj:
 		var ps []string
 		for i := range n.keys {
+			if c := n.cond(i); !c.IsConst() && get(c) == 0 {
+				continue
+			}
 			ps = append(ps, jsonQuote(renderStr(n.keys[i], get))+":"+n.vals[i].render(get))
 		}
 		if n.alien {
@@ -171,6 +191,13 @@ func jsonEq(a, b *JNode) *Term {
 			return tFalse
 		}
 		var cs []*Term
+		if len(a.cnds) > 0 || len(b.cnds) > 0 {
+			// objects produced from the same struct type: same key order
+			for i := range a.keys {
+				cs = append(cs, StrEq(a.keys[i], b.keys[i]), Eq(a.cond(i), b.cond(i)), Implies(a.cond(i), jsonEq(a.vals[i], b.vals[i])))
+			}
+			return And(cs...)
+		}
 		for i := range a.keys {
 			var any []*Term
 			for j := range b.keys {
@@ -261,8 +288,7 @@ func (e *Exec) objField(n *JNode, name string) *JNode {
 		return nil
 	}
 	c := &JNode{kind: jLazy, lz: n.lz, depth: n.depth - 1, keyName: name}
-	n.keys = append(n.keys, ConcStr(name))
-	n.vals = append(n.vals, c)
+	n.addKey(ConcStr(name), c, nil)
 	return c
 }
 
@@ -458,8 +484,15 @@ func (e *Exec) marshal(th *Thread, v Value, t types.Type, addr *PtrV, depth int)
 		n := &JNode{kind: jObj}
 		for _, f := range e.jsonFields(u, nil) {
 			fv := getPath(sv, f.idx)
-			if f.omitEmpty && e.branch(e.isEmptyValue(fv, f.typ)) {
-				continue
+			var present *Term
+			if f.omitEmpty {
+				emp := e.isEmptyValue(fv, f.typ)
+				_, basic := f.typ.Underlying().(*types.Basic)
+				if !emp.IsConst() && basic && e.findMethod(f.typ, "MarshalJSON") == nil && e.findMethod(f.typ, "MarshalText") == nil {
+					present = Not(emp)
+				} else if e.branch(emp) {
+					continue
+				}
 			}
 			var fa *PtrV
 			if addr != nil {
@@ -473,8 +506,7 @@ func (e *Exec) marshal(th *Thread, v Value, t types.Type, addr *PtrV, depth int)
 			if !isNilErr(err) {
 				return nil, err
 			}
-			n.keys = append(n.keys, ConcStr(f.name))
-			n.vals = append(n.vals, c)
+			n.addKey(ConcStr(f.name), c, present)
 		}
 		return n, IfaceV{}
 	case *types.Map:
@@ -492,8 +524,7 @@ func (e *Exec) marshal(th *Thread, v Value, t types.Type, addr *PtrV, depth int)
 			if !isNilErr(err) {
 				return nil, err
 			}
-			n.keys = append(n.keys, ks)
-			n.vals = append(n.vals, c)
+			n.addKey(ks, c, nil)
 		}
 		return n, IfaceV{}
 	case *types.Slice:
@@ -695,6 +726,9 @@ func (e *Exec) decode(th *Thread, n *JNode, start rv, depth int) Value {
 			}
 			e.openMapKeys(n)
 			for i := range n.keys {
+				if !e.branch(n.cond(i)) {
+					continue
+				}
 				tmp := e.newObj(e.zero(u.Elem()), u.Elem(), "json.mapelem")
 				if err := e.decode(th, n.vals[i], rv{ptr: PtrV{obj: tmp}, t: u.Elem(), canSet: true}, depth+1); !isNilErr(err) {
 					return err
@@ -747,6 +781,30 @@ func (e *Exec) decode(th *Thread, n *JNode, start rv, depth int) Value {
 				for _, ix := range fld.idx {
 					p = p.sub(ix)
 				}
+				if c := n.cond(i); !c.IsConst() {
+					_, basic := fld.typ.Underlying().(*types.Basic)
+					if basic && e.findMethod(types.NewPointer(fld.typ), "UnmarshalJSON") == nil && e.findMethod(types.NewPointer(fld.typ), "UnmarshalText") == nil {
+						old := e.load(p)
+						tmp := e.newObj(old, fld.typ, "json.cond")
+						err := e.decode(th, n.vals[i], rv{ptr: PtrV{obj: tmp}, t: fld.typ, canSet: true}, depth+1)
+						if !isNilErr(err) {
+							if e.branch(c) {
+								return err
+							}
+							continue
+						}
+						mg := &merger{e: e, l: &localRun{entrySeq: e.objSeq}, conds: []*Term{c, tTrue}, memo: map[string]*Obj{}}
+						mv, ok := mg.merge([]Value{tmp.val, old}, 0)
+						if !ok {
+							panic(e.unsupported("conditional JSON key merge"))
+						}
+						e.store(p, mv)
+						continue
+					}
+					if !e.branch(c) {
+						continue
+					}
+				}
 				if err := e.decode(th, n.vals[i], rv{ptr: p, t: fld.typ, canSet: true}, depth+1); !isNilErr(err) {
 					return err
 				}
@@ -773,8 +831,7 @@ func (e *Exec) openMapKeys(n *JNode) {
 	if e.choose("jsonmap:"+n.lz.tag, 2, nil, false) == 1 {
 		n.lz.seq++
 		k, _ := e.freshStr(fmt.Sprintf("nd.%s.k%d", n.lz.tag, n.lz.seq), n.lz.strCap)
-		n.keys = append(n.keys, k)
-		n.vals = append(n.vals, &JNode{kind: jLazy, lz: n.lz, depth: n.depth - 1, keyName: "*"})
+		n.addKey(k, &JNode{kind: jLazy, lz: n.lz, depth: n.depth - 1, keyName: "*"}, nil)
 	}
 }
 
